@@ -476,6 +476,9 @@ class Savable:
     def auto_persist(cls, *members: str) -> None:
         if cls._auto_persist is None:
             cls._auto_persist = set()
+        elif '_auto_persist' not in cls.__dict__:
+            # the set was inherited: extend a copy, the members declared here are not members of the parent class
+            cls._auto_persist = set(cls._auto_persist)
         cls._auto_persist.update(members)
 
     @classmethod
